@@ -171,7 +171,7 @@ def r4(ctx):
                     return None
                 p, hits = guard_check(f, nodes_with(f, c), notnone)
                 ctx.check("C17.R4", p is None, key(f, "guarded|" + c.func.attr), site(f, c), "`%s` without `self.pidfile is not None`" % txt, "behind `is not None`", path=p and f.cfg.fmt_path(p))
-    ctx.floor("C17.R4", "pidfile unlink/rename sites in the arbiter", n, 4)
+    ctx.floor("C17.R4", "pidfile unlink/rename sites in the arbiter", n, 2)
     # reload: unlink old, create new under the (possibly new) configured name
     f = ctx.fn(repo.func(ARB + ".reload"))
     g = f.cfg
